@@ -195,6 +195,12 @@ func (e InvalidRuleError) Error() string {
 }
 
 func (r Rule) Apply(facts *FactSet, newFacts *FactSet, syms *SymbolTable) error {
+	return r.apply(nil, facts, newFacts, syms)
+}
+
+// apply is Apply with a cancellation channel: once it is closed the enumeration of
+// combinations stops at its next step and apply returns what it has so far.
+func (r Rule) apply(cancel <-chan struct{}, facts *FactSet, newFacts *FactSet, syms *SymbolTable) error {
 	// extract all variables from the rule body
 	variables := make(MatchedVariables)
 	for _, predicate := range r.Body {
@@ -208,7 +214,7 @@ func (r Rule) Apply(facts *FactSet, newFacts *FactSet, syms *SymbolTable) error 
 	}
 
 	stop := make(chan struct{})
-	combinations := combine(variables, r.Body, r.Expressions, facts, syms, stop)
+	combinations := combine(variables, r.Body, r.Expressions, facts, syms, stop, cancel)
 	// on an early return the producer may still be blocked in (or heading for) a send:
 	// tell it to stop and wait until it has closed the channel, so that no goroutine
 	// of this call outlives it
@@ -376,20 +382,28 @@ func (w *World) Run(syms *SymbolTable) error {
 			verifPoint("run.iter")
 			select {
 			case <-ctx.Done():
+				done <- ErrWorldRunLimitTimeout
 				return
 			default:
 				var newFacts FactSet
 				for _, r := range w.rules {
 					select {
 					case <-ctx.Done():
+						done <- ErrWorldRunLimitTimeout
 						return
 					default:
-						if err := r.Apply(w.facts, &newFacts, syms); err != nil {
+						if err := r.apply(ctx.Done(), w.facts, &newFacts, syms); err != nil {
 							verifPoint("run.send")
 							done <- err
 							return
 						}
 					}
+				}
+
+				// a rule interrupted by the deadline returns a partial result: do not merge it
+				if ctx.Err() != nil {
+					done <- ErrWorldRunLimitTimeout
+					return
 				}
 
 				prevCount := len(*w.facts)
@@ -416,6 +430,9 @@ func (w *World) Run(syms *SymbolTable) error {
 
 	select {
 	case <-ctx.Done():
+		// the evaluation goroutine stops at its next cancellation point; wait for it, so that
+		// nothing reads or writes the world and the symbol table once Run has returned
+		<-done
 		return ErrWorldRunLimitTimeout
 	case err := <-done:
 		return err
@@ -500,7 +517,7 @@ func (m MatchedVariables) Clone() MatchedVariables {
 	return res
 }
 
-func combine(variables MatchedVariables, predicates []Predicate, expressions []Expression, facts *FactSet, syms *SymbolTable, stop <-chan struct{}) <-chan struct {
+func combine(variables MatchedVariables, predicates []Predicate, expressions []Expression, facts *FactSet, syms *SymbolTable, stop <-chan struct{}, cancel <-chan struct{}) <-chan struct {
 	MatchedVariables
 	error
 } {
@@ -528,6 +545,11 @@ func combine(variables MatchedVariables, predicates []Predicate, expressions []E
 
 		// main loop
 		for {
+			select {
+			case <-cancel:
+				return
+			default:
+			}
 			if len(predicates) > 0 && len(*facts) > 0 {
 				// look for the next matching set of facts
 				// current indicates which predicate we are looking at, and indexes contains
@@ -547,6 +569,11 @@ func combine(variables MatchedVariables, predicates []Predicate, expressions []E
 						// then we check again for a match
 						if !advanceIndexes(&current, &indexes, facts) {
 							return
+						}
+						select {
+						case <-cancel:
+							return
+						default:
 						}
 					}
 				}
@@ -592,6 +619,7 @@ func combine(variables MatchedVariables, predicates []Predicate, expressions []E
 								error
 							}{complete_vars, err}:
 							case <-stop:
+							case <-cancel:
 							}
 
 							return
@@ -611,6 +639,8 @@ func combine(variables MatchedVariables, predicates []Predicate, expressions []E
 							error
 						}{complete_vars, nil}:
 						case <-stop:
+							return
+						case <-cancel:
 							return
 						}
 					}
